@@ -55,7 +55,9 @@ def run(ck):
             ck.violation("1", "T1-no-guard-across-user-code", s.body, descr, "user code (%s) can run while a RefCell guard of loop state is live: %s — any re-entrant handle operation borrowing that cell from the callback panics (or, for a shared guard, a mutable re-borrow does)" % (s.cls, "; ".join(bad)), site=s.body.where(s.bb), path=s.via)
         else:
             ck.ok("1", "T1-no-guard-across-user-code", s.body, descr, "live guards at this user-code site: %s" % (held or "none"), site=s.body.where(s.bb))
-    ck.floor("1", "user-code sites (CB/FUT, direct and through local callees)", n, 40 if ck.has("executor") else 30)
+    # floors counted on the reference tree: full 49, book (executor, futures-io) 39, default 35
+    fl = 35 + (4 if ck.has("executor") else 0) + (4 if ck.has("stream") else 0) + (2 if ck.has("signals") else 0) + (4 if ck.has("block_on") else 0)
+    ck.floor("1", "user-code sites (CB/FUT, direct and through local callees)", n, fl)
     for s in sites:
         if s.cls in ("SRC", "WAKE") and s.payloads():
             ck.info("1", "T1-enumerated", s.body, "%s:%s" % (s.cls, s.descr), "source-implementation code / waker runs under %s (by contract; not covered by the statement)" % [p[1] for p in s.payloads()], site=s.body.where(s.bb))
